@@ -181,9 +181,7 @@ func (it *Interp) evalRef(n *Node, ctx *execCtx) Ref {
 		if n.Has(FOptional) && isNullish(base) {
 			panic(shortCircuit{})
 		}
-		if isNullish(base) {
-			it.throwError("TypeError")
-		}
+		// (a null / undefined base throws in GetValue / PutValue, i.e. after the right-hand side of an assignment)
 		return Ref{base: base, key: strKey(n.S), isProp: true, strict: ctx.strict}
 	case KIndex:
 		base := it.eval(n.A, ctx)
@@ -192,7 +190,8 @@ func (it *Interp) evalRef(n *Node, ctx *execCtx) Ref {
 		}
 		kv := it.eval(n.B, ctx)
 		if isNullish(base) {
-			it.throwError("TypeError")
+			// ToPropertyKey is not reached for a null / undefined base; the TypeError is raised by GetValue / PutValue
+			return Ref{base: base, key: strKey(""), isProp: true, strict: ctx.strict}
 		}
 		return Ref{base: base, key: it.toPropertyKey(kv), isProp: true, strict: ctx.strict}
 	case KSuperDot:
